@@ -59,7 +59,7 @@ class Gen:
 
     def item(self, level, depth, kind=None):
         kind = kind or self.rng.choice(["bind"] * 6 + ["commented", "eol", "inherit", "inherit-from", "attrpath", "blank-bind",
-                                                      "block-comment", "if-multi"])
+                                                      "block-comment", "if-multi", "eol-multi", "empty-containers"])
         pad = ind(level)
         if kind == "bind":
             return f"{pad}{self.name()} = {self.value(level, depth)};\n"
@@ -78,6 +78,12 @@ class Gen:
             return f"\n{pad}{self.name()} = {self.value(level, depth)};\n"
         if kind == "block-comment":
             return f"{pad}/*\n{pad}  We love\n{pad}  multiline comments\n{pad}*/\n{pad}{self.name()} = {self.scalar()};\n"
+        if kind == "eol-multi":
+            n1 = self.name()
+            return (f"{pad}{n1} = fetchurl {{\n{pad}  url = \"u\";\n{pad}}}; # why\n"
+                    f"{pad}{self.name()} = [\n{pad}  a\n{pad}  b\n{pad}]; # list\n")
+        if kind == "empty-containers":
+            return f"{pad}{self.name()} = f [ ];\n{pad}{self.name()} = x: {{ }};\n{pad}{self.name()} = g {{ }} [ ];\n"
         if kind == "if-multi":
             return (f"{pad}{self.name()} =\n{pad}  if stdenv.isLinux then\n{pad}    a\n{pad}  else\n{pad}    b;\n")
         raise ValueError(kind)
@@ -94,7 +100,7 @@ class Gen:
     def document(self, kinds=None, wrapper=None):
         r = self.rng
         wrapper = wrapper or r.choice(["bare", "lambda", "lambda-blank", "lambda-let", "lambda-call", "let", "formals-multi",
-                                       "header-lambda-call"])
+                                       "header-lambda-call", "let3", "lambda-let3"])
         body = self.set_body(0, 0, kinds)
         let = "let\n  owner = \"huggingface\";\n  # We love comments here\n  acc = accelerate;\nin\n"
         if wrapper == "bare":
@@ -109,6 +115,9 @@ class Gen:
             t = "{ lib, stdenv }:\n\nstdenv.mkDerivation rec " + body
         elif wrapper == "let":
             t = let + body
+        elif wrapper in ("let3", "lambda-let3"):
+            let3 = ("let\n  a = 1;\nin\nlet\n  # second\n  b = a;\n\n  c = b;\nin\nlet\n  d = c;\nin\n")
+            t = ("{ pkgs, ... }:\n" if wrapper == "lambda-let3" else "") + let3 + body
         elif wrapper == "formals-multi":
             t = "{\n  lib,\n  stdenv,\n\n  # deps\n  rich,\n}:\n" + let + "buildPythonPackage rec " + body
         else:
@@ -116,13 +125,14 @@ class Gen:
         return t + "\n", wrapper
 
 
-ITEM_KINDS = ["bind", "commented", "eol", "inherit", "inherit-from", "attrpath", "blank-bind", "block-comment", "if-multi"]
+ITEM_KINDS = ["bind", "commented", "eol", "inherit", "inherit-from", "attrpath", "blank-bind", "block-comment", "if-multi",
+              "eol-multi", "empty-containers"]
 
 
 def enumerate_pairs(seed=0):
     """every ordered pair of adjacent item kinds × 3 wrappers (deterministic values)"""
     for a in ITEM_KINDS:
         for b in ITEM_KINDS:
-            for w in ("bare", "lambda-call", "lambda-let"):
+            for w in ("bare", "lambda-call", "lambda-let", "let3"):
                 g = Gen(random.Random(hash((a, b, w, seed)) & 0xFFFF), max_depth=2)
                 yield {"pair": [a, b], "wrapper": w}, g.document(kinds=[a, b], wrapper=w)[0]
